@@ -73,5 +73,9 @@ FIXED.append("fixed: property=C19 82422fb LiteralInfoFromURI(\"\") and canonical
 
 FIXED.append("fixed: property=C19 fc65c32 Parameters/1 was rejected and http://h/Parameters/1 parsed as a non-REST URI: the resource-URL pattern listed 145 of the 146 R4 types")
 
+k("C20", "extract|String|label-does-not-resolve-in-json|member-of-the-Reference.reference-oneof", "ExtractAllWithPath[*String] labels the String that holds the fragment of a '#id' reference '<path>.fragment' (the proto field name); the FHIR JSON tree has that text under '<path>.reference'. Recorded, not repaired: the labelling works on proto JSON names and the proto splits Reference.reference into a oneof", {"label": "Account.guarantor[1].party.fragment", "json": {"reference": "#c1"}})
+
+FIXED.append("fixed: property=C02 26a16c9 MedicationKnowledge.kinetics.lethalDose50 (and every element whose name has digits or consecutive capitals) failed with ErrInvalidField (found by the C20 extraction labels)")
+
 if __name__ == '__main__':
     write()
